@@ -193,7 +193,7 @@ pub fn str_slice(
             if let Some(ch) = chars.get(idx) {
                 out.push(*ch);
             }
-            i += step;
+            i = i.saturating_add(step);
         }
     } else {
         while i > end_idx {
@@ -201,7 +201,7 @@ pub fn str_slice(
             if let Some(ch) = chars.get(idx) {
                 out.push(*ch);
             }
-            i += step; // negative
+            i = i.saturating_add(step); // negative
         }
     }
 
